@@ -1283,11 +1283,14 @@ func NewBabbageBlockFromCbor(
 		return nil, fmt.Errorf("decode Babbage block error: %w", err)
 	}
 
+	// A block without a header cannot be used, whether or not the body
+	// hash is validated
+	if babbageBlock.BlockHeader == nil {
+		return nil, errors.New("babbage block header is nil")
+	}
+
 	// Validate body hash during parsing if not skipped
 	if !cfg.SkipBodyHashValidation {
-		if babbageBlock.BlockHeader == nil {
-			return nil, errors.New("babbage block header is nil")
-		}
 		if err := common.ValidateBlockBodyHash(
 			data,
 			babbageBlock.BlockHeader.BlockBodyHash(),
